@@ -163,6 +163,7 @@ func (d *sdrv) report() {
 }
 
 func runSess(cfg *config) {
+	cfg.tr.FlushOps = true
 	wdog = hx.NewWatchdog(cfg.tr, 30*time.Second)
 	id := cfg.nextID
 	run := func(script func(d *sdrv, r *hx.Rng), r *hx.Rng) {
